@@ -130,6 +130,26 @@ theorem transform_init_error_mapped (t tp m : Nat) (a : Fac) (cfg w n : Nat)
   · intro p s ha; simp [facDen, ha, transRes, mapIErr]
   · intro p e ha; simp [facDen, ha]
 
+/-- re-entrant use of the wrapper impls (lib.rs: `Box<S>`, `Rc<S>`, `RefCell<S>`, `&S`, `&mut S`, the
+boxed forms): a service behind wrapper `wk` that, while its own `call(req)` is on the stack, calls
+*the same wrapped service* again (odd `req` → `req - 1`), and whose `poll_ready` polls the wrapper
+once more, behaves exactly like the bare inner service on the request that reaches it — same result,
+same inner log after the shim entries, same number of polls, same readiness; no panic -/
+theorem reentrant_wrapper_transparent (wk : Wrap) (k : Nat) (s : Svc) (req w n : Nat) :
+    run n (.reenter wk k s) req w =
+      ((run n s (reReq req) w).1, reEvts k req ++ (run n s (reReq req) w).2.1, (run n s (reReq req) w).2.2) ∧
+    (pollReady (.reenter wk k s) w).2 = (pollReady s w).2 ∧
+    eval (.reenter wk k s) req = eval s (reReq req) := by
+  refine ⟨by simp [run, call, List.append_assoc], by simp [pollReady], by simp [eval]⟩
+
+/-- … and so do the `ServiceFactory` impls for `Rc<F>` / `Arc<F>` when `new_service(cfg)` re-enters
+the same `Rc`/`Arc` (odd `cfg` → `cfg - 1`) -/
+theorem reentrant_factory_transparent (k : Nat) (a : Fac) (cfg w n : Nat) :
+    facRun n (.reenter k a) cfg w =
+      ((facRun n a (reReq cfg) w).1, freEvts k cfg ++ (facRun n a (reReq cfg) w).2.1, (facRun n a (reReq cfg) w).2.2) ∧
+    facDen (.reenter k a) cfg = facDen a (reReq cfg) := by
+  refine ⟨by simp [facRun, newService, List.append_assoc], by simp [facDen]⟩
+
 /-! ## Non-vacuity: the hypotheses are met by non-trivial trees and scripts -/
 
 /-- `(a.map(21)).and_then(b.map_err(22))`, `a` pending twice, boxed on top -/
@@ -162,5 +182,12 @@ example : facDen exFac3 4 = (3, .err (mapFn 23 (initErr 31 0))) := by decide
 example : (facRun 10 exFac3 4 0).1 = some (.err (mapFn 23 (initErr 31 0))) :=
   ((transform_init_error_mapped 31 2 23 (.rc (.leaf 60 1 true true (.wrap .refMut (.leaf 0 0 true 0 true)))) 4 0 10
     (by decide)).1 1 (.wrap .refMut (.leaf 0 0 true 0 true)) (by decide)).1
+
+/-- `and_then(map(Rc<RefCell<leaf>>))` with a self-delegating shim: request 3 re-enters with 2 -/
+def exRe : Svc := .andThen (.map (.wrap .rc (.reenter .refCell 45 (.leaf 0 1 true 0 true))) 21) (.fnSvc 11 true)
+example : reReq 3 = 2 ∧ reEvts 45 3 = [.reent 45 3, .reent 45 2] := by decide
+example : eval exRe 3 = eval (.andThen (.map (.leaf 0 1 true 0 true) 21) (.fnSvc 11 true)) 2 := by decide
+example : (run 10 exRe 3 0).1 = some (eval exRe 3) := (drive_eq_eval exRe 3 0 10 (by decide)).1
+example : facDen (.reenter 46 (.leaf 60 1 true true (.fnSvc 11 true))) 5 = (1, .ok (.fnSvc 11 true)) := by decide
 
 end ActixNet.C11
